@@ -13,7 +13,10 @@ C2 == [name |-> "s2", topic |-> "t1", cfg |-> [Cfg0 EXCEPT !.filt = F_has_a, !.o
 C3 == [name |-> "s3", topic |-> "t2", cfg |-> [Cfg0 EXCEPT !.mttl = 12]]
 C4 == [name |-> "s4", topic |-> "t1", cfg |-> [Cfg0 EXCEPT !.filt = F_cplx, !.minB = 0, !.maxB = 0, !.ttl = 0, !.mttl = 0]]
 C5 == [name |-> "s1", topic |-> "t2", cfg |-> [Cfg0 EXCEPT !.ord = TRUE, !.ttl = 20]]
-mcSubCfgs == {C1, C2, C3, C4, C5}
+\* the same names again with OTHER filters / settings: a re-created subscription must use its own
+C6 == [name |-> "s2", topic |-> "t1", cfg |-> [Cfg0 EXCEPT !.filt = [op |-> "not", x |-> F_has_a]]]
+C7 == [name |-> "s4", topic |-> "t2", cfg |-> [Cfg0 EXCEPT !.filt = [op |-> "pre", k |-> "a", v |-> "xy"]]]
+mcSubCfgs == {C1, C2, C3, C4, C5, C6, C7}
 mcSetup == << [op |-> "CreateTopic", name |-> "t1"], [op |-> "CreateTopic", name |-> "t2"],
               [op |-> "CreateSub", c |-> C1], [op |-> "CreateSub", c |-> C2],
               [op |-> "CreateSub", c |-> C3] >>
@@ -28,5 +31,5 @@ mcOps == {"CreateTopic", "DeleteTopic", "CreateSub", "DeleteSub", "Publish", "Pu
 W0 == [op \in mcOps |-> 1]
 mcWeights == [W0 EXCEPT !["Publish"] = 6, !["Pull"] = 10, !["Ack"] = 4, !["ModAck"] = 3, !["Nack"] = 3,
                         !["Tick"] = 8, !["SeekTime"] = 2, !["SeekSnap"] = 2, !["CreateSnap"] = 2,
-                        !["CreateSub"] = 2, !["DLSweep"] = 2]
+                        !["CreateSub"] = 4, !["DeleteSub"] = 3, !["DLSweep"] = 2]
 =============================================================================
